@@ -9,6 +9,8 @@ import (
 	"net/http/httputil"
 	"net/url"
 	"strings"
+
+	"github.com/wi1dcard/fingerproxy/pkg/metadata"
 )
 
 type HTTPHandler struct {
@@ -52,6 +54,11 @@ func (f *HTTPHandler) rewriteFunc(r *httputil.ProxyRequest) {
 	r.SetURL(f.To)
 	r.Out.Header["X-Forwarded-For"] = r.In.Header["X-Forwarded-For"]
 	r.SetXForwarded()
+	if md, ok := metadata.FromContext(r.In.Context()); ok && md.ConnectionState.HandshakeComplete {
+		// HTTP/1.1 connections reach net/http wrapped in hack.TLSClientHelloConn, so
+		// Request.TLS is nil and SetXForwarded would claim "http" for a TLS client
+		r.Out.Header.Set("X-Forwarded-Proto", "https")
+	}
 
 	if f.PreserveHost {
 		r.Out.Host = r.In.Host
